@@ -197,7 +197,7 @@ func appNames(v any, acc map[string]bool) {
 func snapshot(root string) []fileEnt {
 	ents := []fileEnt{}
 	filepath.Walk(root, func(p string, info os.FileInfo, err error) error {
-		if err != nil || info.IsDir() {
+		if err != nil || info.IsDir() || info.Mode()&os.ModeSymlink != 0 { // symlinks are the probe programs the harness installed
 			return nil
 		}
 		rel, _ := filepath.Rel(root, p)
@@ -243,6 +243,11 @@ func runBash(c N, dir string, self string, timeout time.Duration) (obs, string, 
 		for name := range apps {
 			if !strings.ContainsAny(name, "/\\") {
 				os.Symlink(self, filepath.Join(bin, name))
+			} else if !filepath.IsAbs(name) && !strings.Contains(name, "..") {
+				// a program named by a relative path (string-literal form): installed below the working directory
+				p := filepath.Join(wd, name)
+				os.MkdirAll(filepath.Dir(p), 0o755)
+				os.Symlink(self, p)
 			}
 		}
 	}
